@@ -114,9 +114,10 @@ STRUCT_SHAPES = ["bare", "qual", "fmt", "kv", "kv2", "multi", "esc", "kv_short",
                  "target_kv", "target_multi", "bang_space", "bang_nl", "bang_comment"]
 
 
-def render_stmt(shape, marker, macro, rid, structured, words, indent="    ", ref_last=False, module="log", rid_text=None):
+def render_stmt(shape, marker, macro, rid, structured, words, indent="    ", ref_last=False, module="log", rid_text=None,
+                lead_ws=""):
     """Render one log statement (with trailing newline). rid: planted ID or None (rid_text: its spelling, e.g. '0042')."""
-    msg = "%s %s" % (marker, words)
+    msg = "%s%s %s" % (lead_ws, marker, words)
     name = macro
     if shape in ("qual", "qual_fmt_multi"):
         name = module + "::" + macro
@@ -164,7 +165,9 @@ def render_stmt(shape, marker, macro, rid, structured, words, indent="    ", ref
     return body
 
 
-_ID_UNSTRUCT = re.compile(r'"\[ref: (\d{1,10})\] ')
+# (a planted reference starts the literal; one the tool inserted may follow white space that opens the message - the
+# grammar skips white space after the opening quote)
+_ID_UNSTRUCT = re.compile(r'"[ \t]*\[ref: (\d{1,10})\] ')
 _ID_STRUCT = re.compile(r'[(\s,]ref = (\d{1,10})[;,]')
 
 
@@ -225,7 +228,7 @@ def make_pad(rng, nbytes, unicode_p=0.0):
     return "".join(out)
 
 
-SIZE_CLASSES = {"tiny": 0, "k8": 9000, "k64": 70000, "k160": 160000, "k256": 270000}
+SIZE_CLASSES = {"tiny": 0, "k8": 9000, "k64": 70000, "k160": 160000, "k256": 270000, "k600": 600000}
 
 
 class Gen:
@@ -249,7 +252,9 @@ class Gen:
         rid_text = None
         if rid is not None and rid < 100000 and rng.random() < 0.06:
             rid_text = "%06d" % rid   # leading zeros: still the same number
-        text = render_stmt(shape, mk, macro, rid, structured, words, ref_last=rng.random() < 0.3, module=module, rid_text=rid_text)
+        lead_ws = rng.choice(["  ", " - ", "\t", "\\n  "]) if rng.random() < 0.08 else ""   # message starting with white space
+        text = render_stmt(shape, mk, macro, rid, structured, words, ref_last=rng.random() < 0.3, module=module, rid_text=rid_text,
+                           lead_ws=lead_ws)
         return ["stmt", mk, text]
 
     def source_file(self, structured, nstmts, size_class, ids, shapes=None, crlf=False, unicode_p=0.0, decoy_p=0.0, layout_p=0.0):
@@ -322,7 +327,7 @@ def _wm_world(wm):
     w = {}
     for p, e in wm.get("extra", {}).items():
         w[p] = e
-    w["proj/" + wm.get("cfg_name", "Breadlog.yaml")] = {"t": "f", "mode": 0o644, "data": wm.get("cfg_raw") or render_cfg(wm["cfg"]),
+    w["proj/" + wm.get("cfg_name", "Breadlog.yaml")] = {"t": "f", "mode": 0o644, "data": wm["cfg_raw"] if wm.get("cfg_raw") is not None else render_cfg(wm["cfg"]),
                                                        "subst": True}
     for p, segs in wm["files"].items():
         w[p] = {"t": "f", "mode": wm.get("modes", {}).get(p, 0o644), "data": segs_bytes(segs)}
@@ -386,7 +391,7 @@ def gen_ids(rng, n, p_have=0.4, lo=1, hi=60, special=None):
 
 def gen_world_model(rng, structured=None, use_cache="rand", nfiles=None, sizes=None, p_have=0.4, id_hi=60,
                     lock="rand", shapes=None, max_stmts=4, min_missing=1, special_ids=None, crlf_p=0.0, unicode_p=0.0,
-                    decoy_p=0.25, custom_macros_p=0.15, layout_p=0.1, heads_p=0.12, many=None, extra_keys_p=0.3, modes_p=0.15, mtimes_p=0.3, many_files=None, yaml_style_p=0.3):
+                    decoy_p=0.25, custom_macros_p=0.15, layout_p=0.1, heads_p=0.12, many=None, extra_keys_p=0.3, modes_p=0.15, mtimes_p=0.3, many_files=None, yaml_style_p=0.3, high_ids_p=0.08):
     """A project with generated in-scope source files under proj/src (nested sometimes)."""
     macros = None
     if rng.random() < custom_macros_p:
@@ -406,6 +411,9 @@ def gen_world_model(rng, structured=None, use_cache="rand", nfiles=None, sizes=N
     else:
         cfg["use_cache"] = use_cache
     nfiles = nfiles if nfiles is not None else rng.randrange(1, 5)
+    id_base = 0
+    if high_ids_p and rng.random() < high_ids_p:
+        id_base = rng.choice([999999990, 1000000000, 2147483640, 3999999000])   # ten-digit IDs, around 2^31
     names = ["main.rs", "lib.rs", "net/conn.rs", "net/tls/hs.rs", "util.rs", "db/store.rs", "z_last.rs", "a_first.rs"]
     rng.shuffle(names)
     files = {}
@@ -418,7 +426,7 @@ def gen_world_model(rng, structured=None, use_cache="rand", nfiles=None, sizes=N
             if rng.random() < p_have:
                 v = None
                 for _try in range(20):
-                    c = rng.randrange(1, id_hi)
+                    c = id_base + rng.randrange(1, id_hi)
                     if special_ids and rng.random() < 0.3:
                         c = rng.choice(special_ids)
                     if c not in used_ids:
@@ -494,7 +502,8 @@ def gen_world_model(rng, structured=None, use_cache="rand", nfiles=None, sizes=N
             lock = rng.choice(["absent", "ahead", "ahead"])
         if lock == "ahead":
             top = max(used_ids) if used_ids else 0
-            wm["lock"] = core.lock_text(top + rng.randrange(1, 40))
+            if top + 40 <= 0xFFFFFFFF:
+                wm["lock"] = core.lock_text(top + rng.randrange(1, 40))
     return wm
 
 
